@@ -54,6 +54,11 @@ meta['caught'] = rc == 1
 sh('git checkout -- evidence', '/verif')
 dst = os.path.join('/verif/seeded', name)
 os.makedirs(dst, exist_ok=True)
+try:
+    old = json.load(open(os.path.join(dst, 'meta.json')))
+    meta['earlier_evaluations'] = old.get('earlier_evaluations', []) + [{'caught': old.get('caught'), 'check': old.get('check')}]
+except Exception:
+    pass
 shutil.copy(patch, os.path.join(dst, 'patch.diff'))
 shutil.copy(demo, os.path.join(dst, 'demo.py'))
 notes = os.path.join(var, 'notes.md')
